@@ -143,6 +143,78 @@ def lutSet (n ext b kLut : Nat) (f : List Int) (k : Nat) : Outcome Table :=
             let normed := polys.map fun p => p.map (normVec b)
             .ok { data := lutRotate n (-(drift : Int)) normed, drift := drift }
 
+/-! ### The accumulator loops of `cggi/algorithm.rs` at plaintext level
+
+The three loops (`execute_standard`, `execute_block_binary`, `execute_block_binary_extended`) are
+modelled on *plaintext* accumulators: the external product `acc ⊡ BRK_i` by the GGSW encryption of
+the key bit `s_i` is replaced by its contract `s_i · acc` (C04; noise dropped), everything else —
+index arithmetic, which accumulator polynomial feeds which, which terms are **skipped** — is the
+code's.  `x_pow_a[k]` is `X^k` (`set_xai_plus_y(k, 0)`), `0 ≤ k < 2N`. -/
+
+def addP (x y : List Vec) : List Vec := List.zipWith (List.zipWith (· + ·)) x y
+def subP (x y : List Vec) : List Vec := List.zipWith (List.zipWith (· - ·)) x y
+def scaleP (s : Int) (x : List Vec) : List Vec := x.map (·.map (s * ·))
+def zeroP (n size : Nat) : List Vec := List.replicate n (List.replicate size 0)
+
+/-- `(x + two_n_ext as i64) & (two_n_ext - 1) as i64) as usize` for a power of two -/
+def posMod (x : Int) (m : Nat) : Nat := (w64 (x + (m : Int)) % (m : Int)).toNat
+
+/-- initial accumulator of the extended loop: `acc[i] = X^{b_hi (+1)} · lut.data[j]` -/
+def extInit (ext : Nat) (bPos : Nat) (data : List (List Vec)) : List (List Vec) :=
+  let bHi := bPos / ext
+  let bLo := bPos % ext
+  (List.range ext).map fun i =>
+    if i < bLo then rotate ((bHi : Int) + 1) (data.getD (ext - bLo + i) [])
+    else rotate (bHi : Int) (data.getD (i - bLo) [])
+
+/-- contribution of one LWE coefficient `(a, s)` to `acc_add_dft` in the extended loop, from the
+accumulators `acc` of the block start; mirrors the three guarded loops, including the guards
+`ai_hi != 0` and `(ai_hi + 1) & (two_n - 1) != 0`. -/
+def extTerm (n ext : Nat) (acc : List (List Vec)) (a s : Int) (add : List (List Vec)) : List (List Vec) :=
+  let twoN := 2 * n
+  let aiPos := posMod a (twoN * ext)
+  let aiHi := aiPos / ext
+  let aiLo := aiPos % ext
+  let vmp : List (List Vec) := acc.map (scaleP s)
+  add.mapIdx fun i addi =>
+    let vi := vmp.getD i []
+    if aiLo = 0 then
+      if aiHi ≠ 0 then addP addi (subP (rotate (aiHi : Int) vi) vi) else addi
+    else if i < aiLo then
+      if (aiHi + 1) % twoN ≠ 0 then addP addi (subP (rotate ((aiHi : Int) + 1) (vmp.getD (ext - aiLo + i) [])) vi) else addi
+    else
+      if aiHi ≠ 0 then addP addi (subP (rotate (aiHi : Int) (vmp.getD (i - aiLo) [])) vi) else addi
+
+/-- `a.chunks_exact(block)` -/
+def chunksExact {α : Type} (block : Nat) : Nat → List α → List (List α)
+  | 0, _ => []
+  | fuel + 1, l => if block = 0 ∨ l.length < block then [] else l.take block :: chunksExact block fuel (l.drop block)
+
+/-- `execute_block_binary_extended` at plaintext level: polynomial 0 of the final accumulators.
+`lwe2n = b :: a` is the mod-switched ciphertext, `sk` the key bits. -/
+def blindExt (n ext b size block : Nat) (data : List (List Vec)) (lwe2n : List Int) (sk : List Int) : List Vec :=
+  match lwe2n with
+  | [] => []
+  | b0 :: a =>
+    let acc0 := extInit ext (posMod b0 (2 * n * ext)) data
+    let pairs := List.zip a sk
+    let acc := (chunksExact block pairs.length pairs).foldl (fun acc blk =>
+      let add := blk.foldl (fun add (as : Int × Int) => extTerm n ext acc as.1 as.2 add) (List.replicate ext (zeroP n size))
+      List.zipWith (fun x y => (addP x y).map (normVec b)) acc add) acc0
+    acc.getD 0 []
+
+/-- `execute_standard` / `execute_block_binary` (`ext = 1`) at plaintext level:
+`acc ← acc + Σ_{block} s_i · (X^{a_i} − 1) · acc`, normalised. -/
+def blindPlain (b block : Nat) (lut0 : List Vec) (lwe2n : List Int) (sk : List Int) : List Vec :=
+  match lwe2n with
+  | [] => []
+  | b0 :: a =>
+    let pairs := List.zip a sk
+    (chunksExact block pairs.length pairs).foldl (fun acc blk =>
+      let add := blk.foldl (fun add (as : Int × Int) =>
+        addP add (scaleP as.2 (subP (rotate as.1 acc) acc))) (acc.map (·.map fun _ => 0))
+      (addP acc add).map (normVec b)) (rotate b0 lut0)
+
 /-- limb-major view of one polynomial (`Col`: limb → coefficients) -/
 def toCol (size : Nat) (p : List Vec) : Col := (List.range size).map fun j => p.map fun v => v.getD j 0
 
